@@ -1,8 +1,18 @@
-import UflVerif.Model.Traversal
+import UflVerif.Model.TraversalShared
 open UflVerif.Trav
 /- line protocol (one reply line per request):
    post <tree> | pre <tree> | cutpost <labels,> <tree> | map <labels,> <tree> | dag <modes,> <tree>
-   labels: comma separated cut-off labels ("-" for none). -/
+   labels: comma separated cut-off labels ("-" for none).
+   shared state (trees separated by "|", groups by "||"):
+   postv <labels> <rev 0/1> <tree> | <visited tree> | ...      -> yields # final visited set
+   prev <tree> | <visited tree> | ...                          -> yields
+   seq <labels> <rev 0/1> <tree> | <tree> | ...                -> yields | yields | ... # final visited set
+   maps <labels> <compress 0/1> <handler 0/1> <trees> || <trees>
+        two map_expr_dags calls sharing vcache/rcache          -> results || results # |vcache| |rcache|
+   dagk <compress 0/1> <spec> <kwmode1> <kwmode2> <tree> | <tree>
+        one DAGTraverser, two root calls                       -> result | result # |visited cache| |result cache|
+        spec: "-" or lab:i.m,i.m;lab:...  (the self(operand i, **mode m) calls of the rule for that label;
+        labels not listed use @postorder) -/
 def labels (s : String) : List Nat := if s == "-" then [] else (s.splitOn ",").filterMap String.toNat?
 
 def showList (ts : List Tree) : String := " ".intercalate (ts.map Tree.str)
@@ -28,7 +38,75 @@ def rules (modes : List Nat) : Rules String where
   ctxFor := fun t ctx i => modeCtx (modes.getD ((t.label % 4) * 2 + i % 2) 0) ctx
   combine := fun t ctx rs => "<" ++ toString t.label ++ "|" ++ ctxStr ctx ++ String.join (rs.map (" " ++ ·)) ++ ">"
 
+def splitBar (s : String) : List String := ((s.splitOn "|").map (·.trimAscii.toString)).filter (· ≠ "")
+def readTrees (s : String) : Option (List Tree) := (splitBar s).mapM readTree
+def cutOf (ls : String) : Tree → Bool := let cl := labels ls; fun x => cl.contains x.label
+
+/-- a handler that is not injective on trees (labels mod 2), so that the result cache has hits -/
+def hMap2 (t : Tree) (rs : List (Option String)) : String :=
+  "<" ++ toString (t.label % 2) ++ String.join (rs.map (fun r => match r with | some x => " " ++ x | none => " ?")) ++ ">"
+
+def showRes (rs : List (Option String)) : String :=
+  " | ".intercalate (rs.map (fun r => match r with | some x => x | none => "no-result"))
+
+def combineK : Tree → Ctx → List String → String :=
+  fun t ctx rs => "<" ++ toString t.label ++ "|" ++ ctxStr ctx ++ String.join (rs.map (" " ++ ·)) ++ ">"
+
+def parseSpec (s : String) : List (Nat × List (Nat × Nat)) :=
+  if s == "-" then [] else (s.splitOn ";").filterMap fun e =>
+    match e.splitOn ":" with
+    | [l, cs] =>
+      match l.toNat? with
+      | some lab => some (lab, (cs.splitOn ",").filterMap fun c =>
+          match c.splitOn "." with
+          | [i, m] => match i.toNat?, m.toNat? with
+            | some i, some m => some (i, m)
+            | _, _ => none
+          | _ => none)
+      | none => none
+    | _ => none
+
+def handlerOf (spec : List (Nat × List (Nat × Nat))) : Handler String where
+  calls := fun t ctx => match spec.find? (·.1 == t.label) with
+    | some (_, cs) => cs.map (fun p => (p.1, modeCtx p.2 ctx))
+    | none => (postorder combineK).calls t ctx
+  combine := combineK
+
+def answerShared (line : String) : Option String :=
+  match (line.trimAscii.toString.splitOn " ").filter (· ≠ "") with
+  | "postv" :: ls :: rv :: rest => some <| match readTrees (" ".intercalate rest) with
+    | some (t :: vis) => let r := trav (cutOf ls) (rv == "1") t vis; showList r.1 ++ " # " ++ showList r.2
+    | _ => "parse-error"
+  | "prev" :: rest => some <| match readTrees (" ".intercalate rest) with
+    | some (t :: vis) => showList (preV t vis)
+    | _ => "parse-error"
+  | "seq" :: ls :: rv :: rest => some <| match readTrees (" ".intercalate rest) with
+    | some ts => let r := travSeq (cutOf ls) (rv == "1") ts []
+                 " | ".intercalate (r.1.map showList) ++ " # " ++ showList r.2
+    | none => "parse-error"
+  | "maps" :: ls :: comp :: hk :: rest => some <|
+    match ((" ".intercalate rest).splitOn "||").mapM readTrees with
+    | some [g1, g2] =>
+      let anyCut := !(labels ls).isEmpty
+      let h := if hk == "1" then hMap2 else hMap
+      let r1 := mapDags (cutOf ls) anyCut h (comp == "1") g1 [] []
+      let r2 := mapDags (cutOf ls) anyCut h (comp == "1") g2 r1.2.1 r1.2.2
+      showRes r1.1 ++ " || " ++ showRes r2.1 ++ " # " ++ toString r2.2.1.length ++ " " ++ toString r2.2.2.length
+    | _ => "parse-error"
+  | "dagk" :: comp :: sp :: m1 :: m2 :: rest => some <|
+    match readTrees (" ".intercalate rest) with
+    | some [t1, t2] =>
+      let H := handlerOf (parseSpec sp)
+      let r1 := dagCall2 H (comp == "1") id t1 (modeCtx (m1.toNat?.getD 3) []) ([], [])
+      let r2 := dagCall2 H (comp == "1") id t2 (modeCtx (m2.toNat?.getD 3) []) r1.2
+      r1.1 ++ " | " ++ r2.1 ++ " # " ++ toString r2.2.1.length ++ " " ++ toString r2.2.2.length
+    | _ => "parse-error"
+  | _ => none
+
 def answer (line : String) : String :=
+  match answerShared line with
+  | some r => r
+  | none =>
   match (line.trimAscii.toString.splitOn " ").filter (· ≠ "") with
   | "post" :: rest => match readTree (" ".intercalate rest) with
     | some t => showList (uniquePost t) | none => "parse-error"
